@@ -2,7 +2,10 @@
 import re
 from common import *
 
-RULE = ("listing cases: content (supplier table, enzyme records) and layout (header prose, indentation by blanks / tabs / none / mixed, "
+RULE = ("import cases: JSON values (absent keys, nulls, unknown keys, wrong types) read by the real json.Unmarshal into map[string]Enzyme "
+        "and by the model's importJ; fixed listings of 257, 300 and 1000 records that are in the domain by construction in every seed; "
+        "out-of-domain probes (earlier tag in a field, tag in the prose) drawn per LISTING with probability 0.04; "
+        "listing cases: content (supplier table, enzyme records) and layout (header prose, indentation by blanks / tabs / none / mixed, "
         "shape and number of blank lines, final newline) are generated; the text is written by the independent Lean writer "
         "Spec.RebaseListing.listing and given to the real rebase.Parse, rebase.Read (through a file) and rebase.Export (token stream of "
         "the JSON as read by encoding/json, and json.Unmarshal back into map[string]Enzyme): 0..300 records, empty fields, 0..15 "
@@ -16,10 +19,19 @@ TRUSTED_BASE = ["Spec/RebaseListing.lean: the format-31 writer and `expectedMap`
                 "ioutil.ReadFile (rebase.Read) — exercised by the correspondence check only"]
 ASSUMPTIONS = ["supplier code letters are ASCII (rune(trimmedString[0]) is a byte, the name is cut at byte 9; range over line[3:] yields "
                "runes); all other text may be any valid UTF-8",
-               "READING (coordinator's ruling): for an empty <2> line 'exactly as written' is read as the list Go's strings.Split(\"\", \",\") "
-               "produces, the one-element list [\"\"]; an empty <7> gives nil. expectedMap demands exactly that.",
+               "nil and the empty list are identified (isoschizomers, suppliers): an empty <2> or <7> line denotes no isoschizomers / no suppliers",
+               "the quantifier's 'generated listings' are TEXT: valid UTF-8. Bytes that are not UTF-8 (e.g. a Latin-1 name in <6>) are outside "
+               "it; they are parsed byte-exactly but json.Marshal replaces them by U+FFFD, so Export does not parse back to the same map — "
+               "recorded by the two rawhex cases (class rawhex/json-diff vs rawhex/json-same), no model",
+               "a case outside the quantifier is not judged, EXCEPT that a timeout / crash / panic where the model predicts a normal return is a FAIL",
+               "import cases (json.Unmarshal vs importJ) have no duplicate keys, no key equal to a field's key up to case, no null in place of an "
+               "enzyme object or inside a string list (Go's rules for those are not part of importJ)",
                "every record of a listing has all eight lines <1>..<8> (format 31); the text is LF-terminated"]
-PARTIAL = ["NARROWING of 'arbitrary header prose' and of free field text: parse_listing is proved, and cases are judged, for prose, supplier lines "
+PARTIAL = ["KNOWN FINDING C16-empty-isoschizomers (provisional): 'holding the record's isoschizomer list … exactly as written' — for an empty <2> "
+           "line the written list is empty, rebase.Parse returns the one-element list [\"\"] (strings.Split(\"\", \",\")), exported as [\"\"] "
+           "next to null for an equally empty <7>. parse_listing_read proves the exact result (readMap) for every listing, "
+           "parse_listing_partial the clause as worded (expectedMap) for listings without an empty <2>; empty_isoschizomers_witness is the "
+           "kernel-checked counterexample. The judge demands expectedMap and tags a failure that is exactly this quirk kf:","NARROWING of 'arbitrary header prose' and of free field text: parse_listing is proved, and cases are judged, for prose, supplier lines "
            "and further-reference lines WITHOUT any record tag <1>..<8> (noTags) and for field values without an EARLIER tag (dispatches k: "
            "no <j>, j < k, in the line of field k). rebase.Parse dispatches on strings.Contains in the order 1..8, so such text is filed "
            "under another field (a prose line 'see <8> below' stores a bogus entry; '<8>ref ... <2>' loses the record). A LATER tag inside "
@@ -63,7 +75,7 @@ def with_tag(r, k, s):
     t = r.random()
     if t < 0.04 and k < 8:
         j = r.randint(k + 1, 8)
-    elif t < 0.0415 and k > 1:
+    elif t < 0.08 and k > 1 and getattr(r, "probe", False):     # only in listings chosen as out-of-domain probes
         j = r.randint(1, k - 1)
     else:
         return s
@@ -110,7 +122,10 @@ def record(r, codes, names):
                                       with_tag(r, 6, phrase(r, 0, 3)), cs, phrase(r, 0, 25), str(nmore)] + more
 
 
-def listing_case(r, nrec, nsup=None, indent=None):
+def listing_case(r, nrec, nsup=None, indent=None, probe=None):
+    """probe: whether this LISTING is an out-of-domain probe (an earlier tag inside a field, a tag in the prose). Decided per
+    listing, with a small probability, never for the fixed large listings — so that listings of every size are judged."""
+    r.probe = (r.random() < 0.04) if probe is None else probe
     nsup = r.randint(0, 20) if nsup is None else nsup
     codes = r.sample(CODES, nsup)
     c = ["listing", str(nsup)]
@@ -125,7 +140,7 @@ def listing_case(r, nrec, nsup=None, indent=None):
     for _ in range(nprose):
         c.append(r.choice(["", " ", "    " + phrase(r), phrase(r), "REBASE codes for commercial sources of enzymes ", "REBASE version 104",
                            "<REFERENCES>only the primary references", "                K        Takara (1/98)"])
-                 + ("  see <%d> below" % r.randint(1, 8) if r.random() < 0.003 else ""))   # a tag in the prose: out-of-domain probe
+                 + ("  see <%d> below" % r.randint(1, 8) if r.probe and r.random() < 0.2 else ""))   # a tag in the prose: out-of-domain probe
     c.append(r.choice(["", "", "", " ", "\t", "  \t "]))                       # blank line shape
     c.append(r.choice(["                ", "\t", "\t\t", "", " \t ", "    "]) if indent is None else indent)
     c.append(str(r.choice([0, 0, 1, 3])))                                      # afterHeading
@@ -134,6 +149,51 @@ def listing_case(r, nrec, nsup=None, indent=None):
     c.append(",".join(str(r.choice([0, 1, 1, 1, 2])) for _ in range(nrec)))    # gaps
     c.append(r.choice(["true", "true", "false"]))
     return c
+
+
+JSONKEYS = ["name", "isoschizomers", "recognitionSequence", "methylationSite", "microorganism", "source", "commercialAvailability",
+            "references"]
+LISTKEYS = {"isoschizomers", "commercialAvailability"}
+
+
+def import_case(r):
+    """a JSON value as a token list (see Driver/C16): an object of enzyme objects with absent keys, nulls, unknown keys, and now and
+    then a value of the wrong type. No duplicate keys, no key that differs from a field's key only by case (Go matches those)."""
+    toks = ["import"]
+    if r.random() < 0.03:
+        return toks + r.choice([["[", "]"], ["s:text"], ["{", "s:A", "s:not an object", "}"], ["{", "s:A", "[", "]", "}"]])
+    toks.append("{")
+    names = set()
+    for _ in range(r.choice([0, 1, 1, 2, 5])):
+        k = enzname(r)
+        if k in names:
+            continue
+        names.add(k)
+        toks += ["s:" + k, "{"]
+        keys = [x for x in JSONKEYS if r.random() < 0.7] + [x for x in ["extra", "zzz", "Name2", "id"] if r.random() < 0.1]
+        r.shuffle(keys)
+        for key in keys:
+            toks.append("s:" + key)
+            t = r.random()
+            if key not in JSONKEYS:
+                toks += r.choice([["s:" + phrase(r, 0, 3)], ["null"], ["[", "s:a", "[", "]", "]"], ["{", "s:k", "null", "}"]])
+            elif key in LISTKEYS:
+                if t < 0.1:
+                    toks.append("null")
+                elif t < 0.13:
+                    toks.append("s:" + phrase(r, 0, 2))          # wrong type: an error in Go and in importJ
+                else:
+                    toks += ["["] + ["s:" + (enzname(r) if r.random() < 0.8 else phrase(r, 0, 3)) for _ in range(r.choice([0, 1, 2, 5]))] + ["]"]
+            else:
+                if t < 0.1:
+                    toks.append("null")
+                elif t < 0.13:
+                    toks += ["[", "s:x", "]"]                     # wrong type
+                else:
+                    toks.append("s:" + phrase(r, 0, 6))
+        toks.append("}")
+    toks.append("}")
+    return toks
 
 
 HEAD = "REBASE codes for commercial sources of enzymes"
@@ -149,10 +209,17 @@ def cases(seed, tier):
     n = 2500 if tier == "quick" else 8000
     for _ in range(n):
         yield listing_case(r, loglen(r, 1, 40))
-    for nrec in [257, 300]:                       # more records than any fixed-size internal queue is likely to hold
-        yield listing_case(r, nrec)
+    # more records than any fixed-size internal queue is likely to hold: in the domain by construction, in every seed
+    for nrec in ([257, 300, 1000] if tier == "quick" else [257, 258, 300, 513, 1000, 3000]):
+        yield listing_case(r, nrec, probe=False)
     for _ in range(4 if tier == "quick" else 60):
-        yield listing_case(r, r.choice([100, 200, 300, 300]))
+        yield listing_case(r, r.choice([100, 200, 300, 300]), probe=False)
+    # json.Unmarshal against the value-level reader importJ (absent keys, null, unknown keys, wrong types)
+    for _ in range(150 if tier == "quick" else 1500):
+        yield import_case(r)
+    # bytes that are not valid UTF-8 (Latin-1 u-umlaut in <6>) and the same name in UTF-8: recorded, no model
+    yield ["rawhex", ("<1>A\n<2>\n<3>G^AATTC\n<4>\n<5>org\n<6>Kr\xfcger\n<7>\n<8>ref\n").encode("latin-1").hex()]
+    yield ["rawhex", ("<1>A\n<2>\n<3>G^AATTC\n<4>\n<5>org\n<6>Kr\u00fcger\n<7>\n<8>ref\n").encode("utf-8").hex()]
     # probes outside the quantifier (never judged; drift of the model is reported as information)
     yield ["raw", ""]
     yield ["raw", "<1>A\n<2>\n<3>G^AATTC\n<4>\n<5>org\n<6>src\n<7>\n<8>ref mentioning <2> in its text\n"]          # a tag inside a value
@@ -167,10 +234,11 @@ def cases(seed, tier):
 TECHNIQUE = ("Lean 4 proof over an executable model of rebase.Parse (the supplier-table state machine and the tag dispatch, statement by "
              "statement, slice panics explicit) and of Export at the level of JSON values driven by the struct tags regenerated with "
              "reflect; independent format-31 writer as spec; differential correspondence incl. the distributed sample file")
-LEVEL_TEXT = ("parse_listing: for every supplier table, record list and layout satisfying the decidable predicate wfListing (any number of "
+LEVEL_TEXT = ("parse_listing_read / parse_listing_partial: for every supplier table, record list and layout satisfying the decidable predicate wfListing (any number of "
               "records and suppliers, any prose, indentation by blanks and/or tabs, any number of blank lines) Parse(listing …) returns "
-              "exactly expectedMap: one entry per record keyed by its name, the eight fields as written, every supplier letter decoded "
-              "through the listing's own table (parse_listing_entries for distinct names). export_roundtrip: importJ (exportJ m) is m in "
+              "exactly readMap — one entry per record keyed by its name, the fields as written, every supplier letter decoded through the "
+              "listing's own table, [\"\"] for an empty <2> — which is expectedMap when no record has an empty <2> (parse_listing_entries for "
+              "distinct names). export_roundtrip: importJ (exportJ m) is m in "
               "sorted key order, for every map with distinct keys (parse_export_roundtrip for the map Parse returns). tags_shape / "
               "tags_nodup are decided on the regenerated struct-tag table. The distributed sample is shown on every run to be "
               "`listing sups recs ℓ` for the content the recogniser extracts (checked by re-rendering), hence inside the theorem's domain.")
